@@ -221,3 +221,11 @@ Theorem authorize_stale_fill_uncached_no_store :
     lookup st k = None ->
     step h tps max_age st (Req svc k inm ims (UFillStale body)) = (st, Some (Resp (nostore_resp body))).
 Proof. exact step_fill_stale_uncached. Qed.
+
+(* A tiled GetMap that is MERGED from the tiles of several cached layers carries no validators and is never answered
+   304 (status 200, the image, no ETag / Last-modified / Cache-control), whatever the client sends: the validators
+   of a single layer's tile never stand for the merged image. *)
+Theorem merged_wmsc_not_conditional :
+  forall h tps max_age tiled body inm ims,
+    serve_wms h tps max_age tiled (WBool true) body inm ims = Resp (new_resp body).
+Proof. exact serve_wms_merged. Qed.
